@@ -109,7 +109,11 @@ def universe_worker(job):
                 if c != 0 and commit is None:
                     commit = unknown if c > u["nc"] else "%040x" % c     # non-git modes: any string
                 rows.append({"task": "//:e", "ts": ts, "commit": commit, "dirty": False})
-            P.write_index(root, rows)
+            # the ORDER in which versions entered the index (a restore of an older archive after newer runs, a merge of two
+            # clones) is no part of the abstract state: insert in a scenario-dependent order
+            order = list(rows)
+            random.Random(str(s.get("id")) + repr(s["rows"])).shuffle(order)
+            P.write_index(root, order)
             for r in rows:
                 os.makedirs(os.path.join(root, "cond-out", "e.task.%d" % r["ts"]), exist_ok=True)
                 with open(os.path.join(root, "cond-out", "e.task.%d" % r["ts"], "data"), "w") as f:
